@@ -12,6 +12,8 @@ DELIVERY = [
     ("fifo-1", "(define ch (channels/new)) (define t (spawn-native-thread (lambda () (map (lambda (i) (channel/recv (channels-receiver ch))) (range 0 6))))) (for-each (lambda (i) (channel/send (channels-sender ch) i)) (range 0 6)) (emit (thread-join! t))", ["(0 1 2 3 4 5)"], "ok"),
     ("fifo-2-senders", "(define ch (channels/new)) (define (snd tag) (spawn-native-thread (lambda () (for-each (lambda (i) (channel/send (channels-sender ch) (cons tag i))) (range 0 5))))) (define a (snd 'a)) (define b (snd 'b)) (define got (map (lambda (i) (channel/recv (channels-receiver ch))) (range 0 10))) (thread-join! a) (thread-join! b) (define (only tag) (map cdr (filter (lambda (p) (eq? (car p) tag)) got))) (emit (only 'a)) (emit (only 'b)) (emit (length got))", ["(0 1 2 3 4)", "(0 1 2 3 4)", "10"], "ok"),
     ("gc-while-blocked", "(define ch (channels/new)) (define t (spawn-native-thread (lambda () (channel/recv (channels-receiver ch))))) (#%gc-collect) (#%gc-collect) (channel/send (channels-sender ch) 'v) (emit (thread-join! t))", ["v"], "ok"),
+    ("gc-while-blocked-nontail", "(define ch (channels/new)) (define t (spawn-native-thread (lambda () (let ([v (channel/recv (channels-receiver ch))]) (list v))))) (#%gc-collect) (#%gc-collect) (channel/send (channels-sender ch) 'v) (emit (thread-join! t))", ["(v)"], "ok"),
+    ("define-while-blocked-nontail", "(define ch (channels/new)) (define t (spawn-native-thread (lambda () (let ([v (channel/recv (channels-receiver ch))]) (list v))))) (define z@@ 1) (set! z@@ 2) (channel/send (channels-sender ch) 'v) (emit (thread-join! t))", ["(v)"], "ok"),
     ("set-while-blocked", "(define g@@ 0) (define ch (channels/new)) (define t (spawn-native-thread (lambda () (channel/recv (channels-receiver ch)) g@@))) (set! g@@ 5) (define h@@ 6) (channel/send (channels-sender ch) 'v) (emit (thread-join! t))", ["5"], "ok"),
     ("finished-thread", "(define t (spawn-native-thread (lambda () 1))) (thread-join! t) (#%gc-collect) (define z@@ 1) (set! z@@ 2) (emit z@@)", ["2"], "ok"),
 ]
@@ -67,9 +69,10 @@ def run(tier, seed):
 
     cases = [{"id": f"dlv-{n}", "fresh": True, "tag": "delivery", "steps": [{"src": src, "class": cls, **({"emit": exp} if exp is not None else {})}]}
              for n, src, exp, cls in DELIVERY]
-    for env in ({}, {"STEEL_JIT": "false"}):
-        verdicts = vlib.replay(cases, work, env_extra=env, jobs=4, timeout_ms=30000, name="c16-dlv")
-        r.add_cases(cases, verdicts)
+    for ename, env in (("jit", {}), ("nojit", {"STEEL_JIT": "false"})):
+        ecases = [dict(c, id=f"{c['id']}@{ename}", tag=f"delivery|{ename}", env=env) for c in cases]
+        verdicts = vlib.replay(ecases, work, env_extra=env, jobs=4, timeout_ms=30000, name="c16-dlv-" + ename)
+        r.add_cases(ecases, verdicts)
     r.cov["rule"] = ("TLC deadlock check of Safepoint.tla (blocking operations are only enabled when the real operation returns); "
                      "directed and seeded free-running multi-threaded evaluations on the real VM under a progress watchdog; "
                      "join / channel delivery cases")
